@@ -390,7 +390,7 @@ func (s *Session) tryReplay(u *Unit, o *Obligation) *ReplayResult {
 		return rr
 	}
 	rr.PkgDir = m[1]
-	out, failed, cmd := runOverlayTest(s.repo, rr.PkgDir, rr.TestSource)
+	out, failed, cmd := runOverlayTest(s.replayRepo(), rr.PkgDir, rr.TestSource)
 	rr.Cmd = cmd
 	rr.TestOutput = trunc(out, 6000)
 	rr.Reproduced = failed && strings.Contains(out, "GOCV-REPRODUCED")
@@ -450,7 +450,7 @@ func (s *Session) corpusReplay(u *Unit, o *Obligation, tmplText, why string) *Re
 				rr.Note = "template exec: " + err.Error()
 				return rr
 			}
-			out, failed, cmd := runOverlayTest(s.repo, rr.PkgDir, buf.String())
+			out, failed, cmd := runOverlayTest(s.replayRepo(), rr.PkgDir, buf.String())
 			if failed && strings.Contains(out, "GOCV-REPRODUCED") {
 				rr.Cmd = cmd
 				rr.TestSource = buf.String()
@@ -515,4 +515,14 @@ func runReplayFile(path string) int {
 	}
 	fmt.Println("not reproduced on this tree")
 	return 0
+}
+
+// replayRepo: replays run against the code that was verified - /repo, or for checks over generated code the scratch
+// copy in which the generator built from the working tree regenerated the probe packages (the generated files
+// checked into /repo may be older than the templates).
+func (s *Session) replayRepo() string {
+	if s.loadDir != "" {
+		return s.loadDir
+	}
+	return s.repo
 }
